@@ -193,6 +193,7 @@ func gen(seed int64, n int, tier string) []interface{} {
 					}
 				}
 				in.Filter = append(in.Filter, f)
+				in.Pre = r.Intn(2) == 0
 			}
 		}
 		if r.Intn(4) == 0 {
